@@ -85,7 +85,7 @@ def _ast_shape(ast) -> str:
     return ",".join(sorted(G.productions(ast)))
 
 
-TINY_BASES = ["{ }", "[ { } ]", "[ { } { } ]", "{ a = { }; }", "x: { }", "[ [ ] ]", "{ a = [ ]; }", "f { }", "({ })", "[ { } 1 ]", "{ a = { }; b = 1; }", "rec { }", "[ rec { } ]", "let a = { }; in a", "{ a = [ { } ]; }", "with { }; [ ]", "{ inherit ({ }) a; }", "a.b or c", "{ x = a.b or 1; }", "a.b.c or { }", "x: a.b or x", "{ a, b ? 1, ... }: a", "a ++ b ++ [ ]", "if a then { } else [ ]"]
+TINY_BASES = ["{ }", "[ { } ]", "[ { } { } ]", "{ a = { }; }", "x: { }", "[ [ ] ]", "{ a = [ ]; }", "f { }", "({ })", "[ { } 1 ]", "{ a = { }; b = 1; }", "rec { }", "[ rec { } ]", "let a = { }; in a", "{ a = [ { } ]; }", "with { }; [ ]", "{ inherit ({ }) a; }", "a.b or c", "{ x = a.b or 1; }", "a.b.c or { }", "x: a.b or x", "{ a, b ? 1, ... }: a", "a ++ b ++ [ ]", "if a then { } else [ ]", "{ a = let b = 1; in b; }", "[ (let b = 1; in b) ]", "{ a = { c = let b = 1; in b; }; }", "{ a = with b; c; }", "{ a = assert b; c; }", "{ a = x: y; }"]
 
 
 def run_shard(sh, cfg: Config):
@@ -120,7 +120,7 @@ def run_shard(sh, cfg: Config):
         sh.now(n)
         ast, base, broken = G.program(n, include_uri=cfg.include_uri, empty_let=empty_let, merge_pairs=merge_pairs)
         r = random.Random(n ^ 0xA5A5A5)
-        tiny = n % 11 == 0
+        tiny = n % 8 == 0
         if tiny:
             # hand-sized programs with trivia in every gap at once: empty containers inside containers, at the end of a file
             ast, base, broken = ("id", "tiny"), r.choice(TINY_BASES), False
